@@ -77,11 +77,13 @@ def fl_coq(x):
 
 
 # ------------------------------------------------------------------ types
-COLL_SPELL = {"list": ["List[{}]", "Sequence[{}]", "Collection[{}]", "list[{}]"],
-              "set": ["Set[{}]", "AbstractSet[{}]", "set[{}]"],
+COLL_SPELL = {"list": ["List[{}]", "list[{}]"],
+              "sequence": ["Sequence[{}]"], "collection": ["Collection[{}]"], "abstractset": ["AbstractSet[{}]"],
+              "set": ["Set[{}]", "set[{}]"],
               "frozenset": ["FrozenSet[{}]", "frozenset[{}]"],
               "vartuple": ["Tuple[{}, ...]", "tuple[{}, ...]"]}
-COLL_COQ = {"list": "KList", "set": "KSet", "frozenset": "KFrozenSet", "vartuple": "KVarTuple"}
+COLL_COQ = {"list": "KList", "set": "KSet", "frozenset": "KFrozenSet", "vartuple": "KVarTuple",
+            "sequence": "KSeq", "collection": "KColl", "abstractset": "KAbsSet"}
 MAP_SPELL = ["Dict[{}, {}]", "Mapping[{}, {}]", "dict[{}, {}]"]
 
 
@@ -253,6 +255,25 @@ def field_ty_src(f, spell):
 
 
 KIND_COQ = {"dataclass": "KData", "namedtuple": "KNamedTuple", "typeddict": "KTypedDict"}
+SKIPIF_COQ = {None: "SkipNever", "none": "SkipIfNone", "zero": "SkipIfZero", "empty": "SkipIfEmptyStr"}
+
+
+def order_plain_coq(o):
+    k, v = o
+    if k == "order":
+        return f"(OOrder {coq_Z(v)})"
+    return f"({'OAfter' if k == 'after' else 'OBefore'} {coq_str(v)})"
+
+
+def order_coq(o):
+    return "None" if o is None else f"(Some {order_plain_coq(o)})"
+
+
+def fser_coq(f):
+    if not any(f.get(k) for k in ("skip_default", "skip_if", "none_undef", "undefined", "order")):
+        return "no_fser"
+    return (f"(mkFS {coq_bool(bool(f.get('skip_default')))} {SKIPIF_COQ[f.get('skip_if')]} "
+            f"{coq_bool(bool(f.get('none_undef')))} {coq_bool(bool(f.get('undefined')))} {order_coq(f.get('order'))})")
 
 
 def field_decl_order(c):
@@ -268,9 +289,14 @@ def universe_coq(u):
         for f in field_decl_order(c):
             dv = default_coq(f["default"]) if not f["required"] and c["kind"] != "typeddict" else "VNone"
             fs.append(f"(mkF {coq_str(f['name'])} {coq_str(f.get('alias') or f['name'])} {ty_coq(f['ty'])} "
-                      f"{coq_bool(f['required'])} {dv} {coq_bool(bool(f.get('fallback')))} {con_opt_coq(f.get('con'))})")
+                      f"{coq_bool(f['required'])} {dv} {coq_bool(bool(f.get('fallback')))} {con_opt_coq(f.get('con'))} "
+                      f"{fser_coq(f)})")
         dr = coq_list([f"({coq_str(k)}, {coq_list([coq_str(x) for x in v])})" for k, v in c.get("depreq", [])])
-        cls.append(f"(mkCls {KIND_COQ[c['kind']]} {coq_list(fs)} {dr})")
+        ms = coq_list([f"(mkSM {coq_str(m['name'])} {coq_str(m.get('alias') or m['name'])} {ty_coq(m['ty'])} "
+                       f"{default_coq(m['result'])} {coq_bool(bool(m.get('undefined')))} {order_coq(m.get('order'))})"
+                       for m in c.get("methods", [])])
+        co = coq_list([f"({coq_str(k)}, {order_plain_coq(o)})" for k, o in c.get("cls_order", [])])
+        cls.append(f"(mkCls {KIND_COQ[c['kind']]} {coq_list(fs)} {dr} {ms} {co} {coq_bool(bool(c.get('fields_set')))})")
     ens = [coq_list([prim_coq(p) for p in vals]) for vals in u.get("enums", [])]
     return f"(mkU {coq_list(cls)} {coq_list(ens)})"
 
